@@ -85,14 +85,18 @@ def resolveExpr (env : Env) (t : Tbl) (aiw : Bool) : SExpr → Except Err Expr
             | .error e => .error e
             | .ok rfilt =>
               -- `filter=` is rewritten into a case expression on the first argument
-              let withFilter : Except Err (List Expr) :=
+              -- (`count(filter=…)`: COUNT(*) over the rows where the filter holds becomes the count of
+              -- `CASE WHEN filter THEN 1 END`; repair of D35)
+              let withFilter : Except Err (String × List Expr) :=
                 match rargs, boolAndAll rfilt with
-                | l, none => .ok l
-                | a :: rest, some cond => .ok (.case [(cond, a)] none :: rest)
-                | [], some _ => if op == "count_star" then .ok [] else .error (.internal "AssertionError filter")
+                | l, none => .ok (op, l)
+                | a :: rest, some cond => .ok (op, .case [(cond, a)] none :: rest)
+                | [], some cond =>
+                    if op == "count_star" then .ok ("count", [.case [(cond, .lit (.int 1) .int64)] none])
+                    else .error (.internal "AssertionError filter")
               match withFilter with
               | .error e => .error e
-              | .ok args1 =>
+              | .ok (op, args1) =>
                 let declared := opFtype op
                 -- implicit partitioning by the grouping state
                 let part1 : Option (List Expr) :=
